@@ -27,3 +27,9 @@ VARIANTS = [
         "        if self.value is None:\n            return False\n        else:\n            return self.value < threshold_value\n\n    def _calculate_matching_score(\n        self,\n        estimated_object: ObjectType,",
         "        if self.value is None:\n            return False\n        return self.value < threshold_value\n\n    def _calculate_matching_score(\n        self,\n        estimated_object: ObjectType,")]),
 ]
+
+# seeded (round 2)
+VARIANTS += [
+    dict(name="seed2-ap-threshold-truthiness", kind="break", rule="C04-marking", edits=[("evaluation/metrics/detection/ap.py",
+        "            if matching_threshold_ is None:\n                continue\n            is_result_correct = obj_result.is_result_correct(", "            if not matching_threshold_:\n                continue\n            is_result_correct = obj_result.is_result_correct(")]),
+]
